@@ -143,6 +143,16 @@ class Gen:
     def block(self, depth, n=None):
         n = n or self.rng.choice([1, 1, 2, 2, 3])
         out = []
+        if self.in_func and depth >= 1 and self.rng.random() < 0.12:
+            # a declaration inside a nested block of a function (valid only if the name is not used earlier in the function:
+            # program() compiles the text and starts over otherwise); sometimes the block consists of nothing else
+            name = self.rng.choice(["d", "c"])
+            out.append("global %s" % name)
+            if self.rng.random() < 0.8:
+                out.append("%s = %s" % (name, self.expr(1)))
+                n = max(n - 1, 0)
+            else:
+                return out
         for _ in range(n):
             out += self.stmt(depth)
         return out or ["pass"]
@@ -272,7 +282,7 @@ class Gen:
             lines += self.stmt(0)
         src = "\n".join(lines) + "\n"
         try:
-            ast.parse(src)
+            compile(src, "<generated>", "exec")          # also the scoping errors (a name used before its global declaration)
         except SyntaxError:
             return self.program(nstmts, head)
         return src
